@@ -343,7 +343,8 @@ def obligations(tier):
         make_dist("C16.dist.xyz_supplied", 3, xyz=True),
         make_diff("C16.grad.norm.1d", "n_face", "gradient", (), 3, normalize=True, cost=3),
         make_diff("C16.grad.face.3d", "n_face", "gradient", (2, 2), 4, tiers=("thorough",), cost=3),
-        make_dist("C16.dist.5e", 5, tiers=("thorough",)),
-        make_diff("C16.grad.norm.2d", "n_face", "gradient", (2,), 3, normalize=True, tiers=("thorough",), cost=5),
+        make_dist("C16.dist.4e", 4, tiers=("thorough",)),
+        # not registered: 5 symbolic edges (C16.dist.5e) and the normalised gradient with a leading dimension (C16.grad.norm.2d, a
+        # nonlinear claim over 6 results) - z3 answers 'unknown' after 600 s; they are outside the claim (DESIGN.md section 8)
     ]
     return [o for o in obs if tier in o.tiers]
